@@ -338,9 +338,13 @@ def make_watcher(kind, coro):
 
 
 # ----------------------------------------------------------------------------------- canonical results
+# results whose order comes from iterating a Python set (Role.roles / Role.users hold Role objects hashed
+# by memory address, so the order differs between two runs of the SAME class): compared as sorted lists
 SORTED_RESULTS = {"get_roles_for_user", "get_users_for_role", "get_roles_for_user_in_domain",
                   "get_users_for_role_in_domain", "get_all_roles_by_domain", "get_implicit_roles_for_user",
-                  "get_implicit_users_for_resource", "get_implicit_users_for_resource_by_domain"}
+                  "get_implicit_users_for_resource", "get_implicit_users_for_resource_by_domain",
+                  # concatenation per role in BFS order over Role.roles, a set of objects hashed by address:
+                  "get_implicit_permissions_for_user", "get_named_implicit_permissions_for_user"}
 
 
 def canon_value(v):
@@ -560,7 +564,7 @@ def shrink(case, budget=400):
             if fails(cand):
                 cur, changed = cand, True
         for key, val in (("watcher", "none"), ("coro", False), ("adapter", "filtered_plain"), ("adapter", "full"),
-                         ("adapter", "basic")):
+                         ("adapter", "basic"), ("adapter", "none")):
             if cur.get(key) != val:
                 cand = copy.deepcopy(cur)
                 cand[key] = val
